@@ -133,6 +133,13 @@ pub fn glob_match(pattern: &str, path: &str) -> bool {
     if let Some(ext) = pattern.strip_prefix("*.") {
         return has_ext(path, ext);
     }
+    if let Some(pos) = pattern.find("/*.") {
+        // `dir/*.ext`: `*` is not stopped by `/`
+        let (dir, ext) = (&pattern[..pos], &pattern[pos + 3..]);
+        if !dir.contains(['*', '[', '{']) {
+            return path.starts_with(&format!("{dir}/")) && has_ext(path, ext);
+        }
+    }
     // an "exact path" that contains glob metacharacters is still a pattern: `[id]` is a character
     // class and `{slug}` an alternation, neither matches the file of that literal name
     if pattern.contains('[') || pattern.contains('{') {
@@ -1060,6 +1067,12 @@ pub fn invalid_reason(world: &World) -> Option<String> {
                         }
                         if r.lines[l - 1].contains('~') {
                             return Some("tag re-write whose new line contains a tilde".into());
+                        }
+                        if old.contains(DROPPED_ATTR) && with_dropped_attr(&r.lines[l - 1]).as_deref() != Some(old.as_str()) {
+                            return Some("dropped-attribute edit whose old text is not the new line plus the attribute".into());
+                        }
+                        if r.blocks.iter().any(|b| b.start_line == l && b.end_line == l) {
+                            return Some("tag re-write on a one-comment block".into());
                         }
                         continue;
                     }
